@@ -198,7 +198,8 @@ func generate(o *common.Opts) {
 }
 
 var corpus = []string{
-	// tier2: stage 1 of a graph that has the single stage 0 (index out of range in UsedModulesUpToStage)
+	// tier2: stage 1 of a graph that has the single stage 0 (index out of range in UsedModulesUpToStage
+	// before fix 84ed6b1e, rejected with an error since)
 	"T2 bt=T fs=0 seg=10 segnum=0 stage=1 stopnum=0 mc=1 ss=1 mbs=1 out=a bins=wasm%2Frust%2Dv1~0 M=a,m,0,0,-,rT",
 	"T2 bt=T fs=0 seg=10 segnum=0 stage=0 stopnum=0 mc=1 ss=1 mbs=1 out=a bins=wasm%2Frust%2Dv1~0 M=a,m,0,0,-,rT",
 	// F10: a module without kind; F12: an input without type; F11: binary index out of range
